@@ -279,8 +279,15 @@ def build(case):
         del kw['rho']
     # explicit initial sets are documented as 'iterable' / 'list or set' of nodes: hand them over in the container the case names
     form = case.get('ic_container', 'list')
-    conv = {'list': list, 'set': set, 'tuple': tuple, 'frozenset': frozenset, 'dictkeys': lambda x: dict.fromkeys(x).keys()}[form]
-    if form != 'list':
+    conv = {'list': list, 'set': set, 'tuple': tuple, 'frozenset': frozenset, 'dictkeys': lambda x: dict.fromkeys(x).keys(),
+            'duplist': lambda x: list(x) + list(x)[:max(1, len(x) // 2)], 'single': None}[form]     # an iterable of nodes may name a node twice
+    if form == 'single':
+        # 'node or iterable of nodes: if a single node, then this node is initially infected' (the *_from_graph wrappers)
+        if isinstance(kw.get('initial_infecteds'), list) and len(kw['initial_infecteds']) == 1:
+            kw['initial_infecteds'] = kw['initial_infecteds'][0]
+        else:
+            form = 'list'
+    elif form != 'list':
         for key in ('initial_infecteds', 'initial_recovereds'):
             if isinstance(kw.get(key), list):
                 kw[key] = conv(kw[key])
@@ -348,7 +355,10 @@ def random_ode_case(r, name, nmax=None):
         ph = gen.make_prehistory(r, case['graph'])
         if ph:
             case['prehistory'] = ph
-    case['ic_container'] = r.choice(['list', 'list', 'set', 'tuple', 'frozenset', 'dictkeys'])
+    case['ic_container'] = r.choice(['list', 'list', 'set', 'tuple', 'frozenset', 'dictkeys', 'duplist'])
+    if r.random() < 0.1 and case['ic'] == 'sets' and not name.endswith('_pure_IC'):
+        case['ic_container'] = 'single'
+        case['I0'] = case['I0'][:1]
     case['pairs0'] = r.choice([False, False, 'both', 'both', 'xy', 'xx'])
     case['dense_Ks'] = r.random() < 0.5
     if name in ('SIS_heterogeneous_meanfield_from_graph', 'SIR_heterogeneous_meanfield_from_graph') and r.random() < 0.35 and desc['n'] >= 4:
